@@ -32,6 +32,9 @@ type c17Ref struct{ name string }
 
 var c17A, c17B = &c17Ref{"A"}, &c17Ref{"B"}
 
+// a second object with the content of A: another reference, however equal it looks
+var c17A2 = &c17Ref{"A"}
+
 var (
 	c17F1 = func(r rune) bool { return true }
 	c17F2 = func(r rune) bool { return false }
@@ -54,6 +57,8 @@ func c17RefOf(i int) interface{} {
 		return c17S1
 	case 6:
 		return c17M1
+	case 7:
+		return c17A2
 	}
 	return nil
 }
@@ -78,7 +83,7 @@ func c17Name(v interface{}) string {
 	if v == nil {
 		return "none"
 	}
-	for i, n := range []string{"", "A", "B", "F1", "F2", "S1", "M1"} {
+	for i, n := range []string{"", "A", "B", "F1", "F2", "S1", "M1", "A2"} {
 		if i > 0 && c17Same(v, c17RefOf(i)) {
 			return n
 		}
@@ -329,7 +334,11 @@ func TestC17_Rapid(t *testing.T) {
 				if a > b {
 					a, b = b, a
 				}
-				ops = append(ops, c17Op{0, a, b, rapid.IntRange(0, 6).Draw(rt, "ref")})
+				ops = append(ops, c17Op{0, a, b, rapid.IntRange(0, 7).Draw(rt, "ref")})
+				if rapid.IntRange(0, 3).Draw(rt, "adjacent") == 0 && b < 0xfff0 {
+					// the neighbouring range right behind it, with an equal-looking but different reference object
+					ops = append(ops, c17Op{0, b + 1, b + 1 + rune(rapid.IntRange(0, 300).Draw(rt, "width")), []int{7, 1, 2}[rapid.IntRange(0, 2).Draw(rt, "twin")]})
+				}
 			}
 		}
 		probes := append([]rune{}, c17AllProbes()...)
